@@ -199,7 +199,8 @@ pub fn gen_doc(r: &mut Rng) -> Vec<ABlock> {
 
 pub struct Layout {
     pub crlf: bool,
-    pub preamble: bool,
+    /// 0 = none, 1 = loose LIDER attributes before the general data block, 2 = the general data block first, nothing before it
+    pub preamble: u8,
     pub noise: bool,
 }
 
@@ -221,12 +222,14 @@ pub fn print_doc(r: &mut Rng, doc: &[ABlock], lay: &Layout) -> String {
             }
         }
     };
-    if lay.preamble {
+    if lay.preamble > 0 {
         lines.push("+ cabecera de LIDER".into());
-        lines.push(format!("CAMBIO = SI{}", ws(r)));
-        lines.push("CAMBIO-CALENER = NO".into());
-        lines.push("EEGeneradaAutoconsumida        = \"0\"".into());
-        lines.push("CONTRIBUCIONRESACS             =           1800".into());
+        if lay.preamble == 1 {
+            lines.push(format!("CAMBIO = SI{}", ws(r)));
+            lines.push("CAMBIO-CALENER = NO".into());
+            lines.push("EEGeneradaAutoconsumida        = \"0\"".into());
+            lines.push("CONTRIBUCIONRESACS             =           1800".into());
+        }
         lines.push("TEMPLARY = algo".into());
         lines.push("\"DATOS GENERALES\" = GENERAL-DATA".into());
         lines.push("    ENGLISH           =  NO".into());
@@ -263,7 +266,7 @@ pub fn print_doc(r: &mut Rng, doc: &[ABlock], lay: &Layout) -> String {
 }
 
 /// what the abstract description says the parse must give: (type, name, parent, sorted attributes)
-fn expected(doc: &[ABlock], preamble: bool) -> Vec<(usize, String, Option<String>, Vec<(String, Result<f32, String>)>)> {
+fn expected(doc: &[ABlock], preamble: u8) -> Vec<(usize, String, Option<String>, Vec<(String, Result<f32, String>)>)> {
     let mut out = vec![];
     let typed = |t: &str| -> Result<f32, String> {
         match t.parse::<f32>() {
@@ -271,12 +274,14 @@ fn expected(doc: &[ABlock], preamble: bool) -> Vec<(usize, String, Option<String
             Err(_) => Err(t.trim().to_string()),
         }
     };
-    if preamble {
+    if preamble > 0 {
         let mut a = std::collections::BTreeMap::new();
-        a.insert("CAMBIO".to_string(), Err("SI".to_string()));
-        a.insert("CAMBIO-CALENER".to_string(), Err("NO".to_string()));
-        a.insert("EEGeneradaAutoconsumida".to_string(), Ok(0.0));
-        a.insert("CONTRIBUCIONRESACS".to_string(), Ok(1800.0));
+        if preamble == 1 {
+            a.insert("CAMBIO".to_string(), Err("SI".to_string()));
+            a.insert("CAMBIO-CALENER".to_string(), Err("NO".to_string()));
+            a.insert("EEGeneradaAutoconsumida".to_string(), Ok(0.0));
+            a.insert("CONTRIBUCIONRESACS".to_string(), Ok(1800.0));
+        }
         out.push((32, "PARTELIDER".to_string(), None, a.into_iter().collect()));
         out.push((29, "DATOS GENERALES".to_string(), None, vec![("ENGLISH".to_string(), Err("NO".to_string()))]));
     }
@@ -431,7 +436,7 @@ pub fn run(a: &Args) -> Batch {
     for i in 0..a.n {
         let mut rr = r.fork(1000 + i as u64);
         let doc = gen_doc(&mut rr);
-        let lay = Layout { crlf: rr.chance(1, 3), preamble: rr.chance(1, 4), noise: rr.chance(2, 3) };
+        let lay = Layout { crlf: rr.chance(1, 3), preamble: if rr.chance(1, 4) { 1 + rr.below(2) as u8 } else { 0 }, noise: rr.chance(2, 3) };
         let text = print_doc(&mut rr, &doc, &lay);
         nblocks += doc.len();
         for b in &doc {
